@@ -27,6 +27,20 @@ func (f *GitFilter) Clean(reader io.Reader, fileName string, fileSize int64, cb 
 	var tmp *os.File
 	var exts []*PointerExtension
 	if len(extensions) > 0 {
+		// As without extensions (see copyToTemp), input that already is
+		// a pointer must be passed through unchanged rather than be
+		// piped through the extensions and stored as an object.
+		ptr, buf, perr := DecodeFrom(reader)
+
+		by := make([]byte, blobSizeCutoff)
+		n, rerr := buf.Read(by)
+		by = by[:n]
+
+		if rerr != nil || (perr == nil && len(by) < blobSizeCutoff) {
+			return nil, errors.NewCleanPointerError(ptr, by)
+		}
+		reader = io.MultiReader(bytes.NewReader(by), buf)
+
 		request := &pipeRequest{"clean", reader, fileName, extensions}
 
 		var response pipeResponse
